@@ -112,6 +112,7 @@ type Finding struct {
 }
 
 func NewStream(name string) *Stream {
+	name += os.Getenv("HX_SUFFIX") // e.g. "-race": the same stream run a second time by another binary
 	d := OutDir()
 	fo, err := os.Create(filepath.Join(d, name+".ops"))
 	if err != nil {
